@@ -367,6 +367,18 @@ class Function:
         return "<fn %s>" % self.name
 
 
+_FIELD_VOCAB = None
+
+
+def _field_vocab():
+    global _FIELD_VOCAB
+    if _FIELD_VOCAB is None:
+        from . import build as _b
+        p = os.path.join(os.path.dirname(_b.VOCAB), "fields.json")
+        _FIELD_VOCAB = json.load(open(p)) if os.path.exists(p) else {}
+    return _FIELD_VOCAB
+
+
 class Module:
     def __init__(self, path, unit):
         with open(path) as f:
@@ -406,11 +418,19 @@ class Module:
             return
         k = t.get("k")
         if k in ("struct", "union"):
+            old_names = _field_vocab().get(t.get("name")) if t.get("name") else None
+            cur_names = {m[0] for m in t["members"]} if old_names else None
             for (mname, moff, msize, mty) in t["members"]:
                 mt = self.types[mty]
                 size = msize or mt.get("size", 0)
                 if moff == off and mname:
                     out.append((mname, size))
+                    # field renamed since the rules were written: a member whose name the vocabulary does not know, sitting at the offset where a
+                    # member the struct no longer has used to be, also answers to that old name (see bin/mkvocab, vocab/fields.json)
+                    if old_names and mname not in old_names["names"]:
+                        for o in old_names["at"].get(str(moff), []):
+                            if o not in cur_names:
+                                out.append((o, size))
                 # trailing flexible array member (records[] of dispatch_data_s): offsets beyond the struct index into it
                 flexible = depth == 0 and k == "struct" and mt.get("k") == "array" and not mt.get("count") and \
                     moff == max(m[1] for m in t["members"]) and moff >= t.get("size", 0) - 0 and off >= moff
